@@ -170,12 +170,18 @@ inductive Form where
   | range (r : RangeArg)
   deriving DecidableEq, Repr
 
-def bound (b : Option Nat) (arg : Nat) : Nat := b.getD arg
+/-- A forwarded bound: `(0, n)` literal, `(1, _)` the single-index form's `$idx`, `(2, _)` absent. -/
+def bound (b : Nat × Nat) (arg : Nat) : Option Nat :=
+  if b.1 == 0 then some b.2 else if b.1 == 1 then some arg else none
 
-def rangeOf (src : String × Option Nat × Option Nat) (arg : Nat) : Option RangeArg :=
-  let lo := bound src.2.1 arg
-  let hi := bound src.2.2 arg
-  if src.1 == "..=" then some (.incl lo hi) else if src.1 == ".." then some (.excl lo hi) else none
+def rangeOf (src : String × (Nat × Nat) × (Nat × Nat)) (arg : Nat) : Option RangeArg :=
+  let incl := src.1 == "..="
+  if !incl && src.1 != ".." then none
+  else match bound src.2.1 arg, bound src.2.2 arg with
+    | some lo, some hi => some (if incl then .incl lo hi else .excl lo hi)
+    | some lo, none => if incl then none else some (.from lo)
+    | none, some hi => some (if incl then .toIncl hi else .to hi)
+    | none, none => if incl then none else some .full
 
 /-- The range each form hands to the recursive macro. -/
 def Form.toRange : Form → Option RangeArg
